@@ -30,8 +30,9 @@ B32, B64, B128 = bytes(range(32)), bytes(range(64)), bytes(range(128))
 
 
 class Call(object):
-    def __init__(self, label, fn, oneshot=True):
+    def __init__(self, label, fn, oneshot=True, newfactory=None):
         self.label, self.fn, self.oneshot = label, fn, oneshot
+        self.newfactory = newfactory      # a reconfiguring call: afterwards "equally configured fresh object" means newfactory()
 
 
 def one(label, fn):
@@ -40,6 +41,10 @@ def one(label, fn):
 
 def hist(label, fn):
     return Call(label, fn, False)
+
+
+def reconf(label, fn, newfactory):
+    return Call(label, fn, False, newfactory)
 
 
 def hash_calls(block):
@@ -165,7 +170,9 @@ kind("Skein-tree", lambda: cskein.Skein(256, 256, Yl=1, Yf=1, Ym=2), [one("h(abc
 kind("HMAC-SHA256", lambda: chmac.HMAC(csha.SHA2(256), b"key one"), [one("mac(abc)", lambda m: m(M1)), one("mac(200B)", lambda m: m(M2)), one("mac(empty)", lambda m: m(M0)),
                                                                       hist("inner hash called directly", lambda m: m.h(M2)),
                                                                       hist("inner hash update unfinished", lambda m: (m.h.initstate(), m.h.update(B64))),
-                                                                      hist("inner hash error", lambda m: m.h(M1, bitlen=100))],
+                                                                      hist("inner hash error", lambda m: m.h(M1, bitlen=100)),
+                                                                      reconf("setkey(short key 2)", lambda m: m.setkey(b"second key"), lambda: chmac.HMAC(csha.SHA2(256), b"second key")),
+                                                                      reconf("setkey(long key)", lambda m: m.setkey(b"L" * 150), lambda: chmac.HMAC(csha.SHA2(256), b"L" * 150))],
      other=lambda: chmac.HMAC(csha.SHA2(256), b"k" * 100),
      expect={"mac(abc)": pyhmac.new(b"key one", M1, "sha256").digest(), "mac(200B)": pyhmac.new(b"key one", M2, "sha256").digest(), "mac(empty)": pyhmac.new(b"key one", M0, "sha256").digest()})
 kind("HMAC-MD5", lambda: chmac.HMAC(cmd.MD5(), b"k" * 70), [one("mac(abc)", lambda m: m(M1)), one("mac(200B)", lambda m: m(M2)),
@@ -188,6 +195,14 @@ kind("Threefish-512", lambda: ctf.Threefish(B64, B16), cipher_calls(64), other=l
 kind("ECB-AES-pkcs7", lambda: cmode.ECB(caes.AES(KEY16)), mode_calls(16, lambda m: cmode.ECB(caes.AES(KEY16)).enc(m)), other=lambda: cmode.ECB(caes.AES(KEY16), cpad.X923))
 kind("ECB-DES-bitpadding", lambda: cmode.ECB(cdes.DES(KEY8), cpad.bitpadding), mode_calls(8, lambda m: cmode.ECB(cdes.DES(KEY8), cpad.bitpadding).enc(m)),
      other=lambda: cmode.ECB(cdes.DES(KEY8), cpad.Nullpadding))
+kind("ECB-AES-nopadding", lambda: cmode.ECB(caes.AES(KEY16), cpad.nopadding),
+     [one("enc(16B)", lambda m: m.enc(B16)), one("enc(17B)->error", lambda m: m.enc(B16 + b"x")), one("enc(32B)", lambda m: m.enc(B32)),
+      one("dec(16B)", lambda m: m.dec(B16)), one("enc(empty)", lambda m: m.enc(b"")), one("dec(15B)->error", lambda m: m.dec(B16[:15]))],
+     other=lambda: cmode.ECB(caes.AES(KEY16)), expect={"enc(16B)": RAES.enc(KEY16, B16), "enc(32B)": RAES.enc(KEY16, B32[:16]) + RAES.enc(KEY16, B32[16:])})
+kind("CBC-DES-nopadding", lambda: cmode.CBC(cdes.DES(KEY8), IV8, cpad.nopadding),
+     [one("enc(8B)", lambda m: m.enc(B8)), one("enc(9B)->error", lambda m: m.enc(B8 + b"x")), one("enc(24B)", lambda m: m.enc(B32[:24])),
+      one("dec(16B)", lambda m: m.dec(B16)), one("enc(3B)->error", lambda m: m.enc(b"abc"))],
+     other=lambda: cmode.CBC(cdes.DES(KEY8), IV8))
 kind("CBC-AES-pkcs7", lambda: cmode.CBC(caes.AES(KEY16), IV16), mode_calls(16, lambda m: cmode.CBC(caes.AES(KEY16), IV16).enc(m)), other=lambda: cmode.CBC(caes.AES(KEY16), B16))
 kind("CBC-TDEA-x923", lambda: cmode.CBC(cdes.TDEA(KEY24), IV8, cpad.X923), mode_calls(8, lambda m: cmode.CBC(cdes.TDEA(KEY24), IV8, cpad.X923).enc(m)),
      other=lambda: cmode.CBC(cdes.TDEA(KEY24), IV8))
@@ -248,6 +263,8 @@ def check_history(c):
     else:
         main = guard(k["factory"])
     objs = {0: main}
+    factories = {0: k["factory"], 1: k["factory"]}      # what "equally configured" means per target (changes with a reconfiguring call)
+    reconf_t = set()
     try:
         prev_labels = []
         for step, (tgt, ci) in enumerate(c["seq"]):
@@ -263,10 +280,20 @@ def check_history(c):
                 prev_labels.append("other:" + call.label)
                 continue
             got = outcome(call.fn, objs[tgt])
+            if call.newfactory is not None:
+                factories[tgt] = call.newfactory
+                reconf_t.add(tgt)
             if call.oneshot:
-                fresh = k["factory"]() if c["kind"] != "crc" else ccrc
+                fresh = factories[tgt]() if c["kind"] != "crc" else ccrc
                 exp = outcome(call.fn, fresh) if c["kind"] != "crc" else _FIRST[("crc", 0, ci)]
-                pinned = k["expect"].get(call.label)
+                pinned = k["expect"].get(call.label) if tgt not in reconf_t else None
+                if tgt in reconf_t:
+                    if got != exp:
+                        raise Violation("%s:after-reconfiguration:differs-from-fresh-object" % family(c["kind"]),
+                                        {"step": step, "call": call.label, "outcome": exp}, {"step": step, "call": call.label, "outcome": got},
+                                        "history: " + " ; ".join(prev_labels))
+                    prev_labels.append(call.label)
+                    continue
                 if pinned is not None and exp != ("ok", pinned):
                     raise Violation("%s:fresh-object-differs-from-independent-reference" % family(c["kind"]), ("ok", pinned), exp,
                                     "class-level state shared between instances? history: " + " ; ".join(prev_labels))
@@ -338,6 +365,14 @@ def enum_cases(tier, rnd):
                 if not k["calls"][seq[-1]].oneshot:
                     continue        # a sequence ending in a history-only call checks nothing new
                 yield {"kind": name, "seq": tuple((0, ci) for ci in seq)}
+        if maxlen < 3:
+            # "call, disturb, call": every (one of the first two one-shot calls, history-only / reconfiguring call, one-shot call) triple
+            ones = [i for i, cl in enumerate(k["calls"]) if cl.oneshot]
+            hists = [i for i, cl in enumerate(k["calls"]) if not cl.oneshot]
+            for a in ones[:2]:
+                for h in hists:
+                    for b in ones:
+                        yield {"kind": name, "seq": ((0, a), (0, h), (0, b))}
 
 
 def sampled_strategy(tier):
@@ -351,7 +386,7 @@ FACETS = [
           shards={"quick": 16, "thorough": 32},
           rule="for each of the %d object kinds (hashes, sponge, MD6, BLAKE/BLAKE2, Skein, HMAC, TLSH, Nilsimsa, block ciphers, ECB/CBC/CTR/CTS, Salsa20/ChaCha, "
                "the module singletons keccak_*/blake*/blake2b/blake2s/tlsh, CRC functions): EVERY sequence of length <= 2 (<= 3 thorough) over its call "
-               "alphabet (one-shot calls with other messages/options, calls that raise, unfinished incremental calls) ending in a one-shot call" % len(KINDS)),
+               "alphabet, plus in the quick tier every (call, history-only or reconfiguring call, call) triple, (one-shot calls with other messages/options, calls that raise, unfinished incremental calls) ending in a one-shot call" % len(KINDS)),
     Facet("sequences-sampled", check_history, strategy=sampled_strategy, budget={"quick": 2000, "thorough": 60000}, shards={"quick": 16, "thorough": 32},
           nontrivial=nontriv, classify=classify,
           rule="sequences of 3..8 (12) calls, each on the instance under test, on a sibling of the same configuration or on a sibling / module "
